@@ -38,13 +38,26 @@ pub fn ierr_of(code: u64) -> InterfaceError {
         31 => InterfaceError::SerialError(SerialError::ReadError(std::io::Error::new(std::io::ErrorKind::Other, "x"))),
         32 => InterfaceError::SerialError(SerialError::WriteError(std::io::Error::new(std::io::ErrorKind::Other, "x"))),
         40 => InterfaceError::CanError(CanError::BufferOverrun),
+        34 => InterfaceError::SerialError(SerialError::ReadError(std::io::Error::new(std::io::ErrorKind::Interrupted, "x"))),
+        35 => InterfaceError::SerialError(SerialError::ReadError(std::io::Error::new(std::io::ErrorKind::TimedOut, "x"))),
+        36 => InterfaceError::SerialError(SerialError::WriteError(std::io::Error::new(std::io::ErrorKind::TimedOut, "x"))),
+        37 => InterfaceError::SerialError(SerialError::WriteError(std::io::Error::new(std::io::ErrorKind::WouldBlock, "x"))),
         99 => InterfaceError::NoPacketReceived,        // only as an answer to try_send_packet (a link that misuses the 'nothing received' value)
         _ => InterfaceError::CanError(CanError::MailboxFull),
     }
 }
-pub const ERR_CODES: [u64; 16] = [10, 11, 12, 13, 14, 15, 20, 21, 22, 23, 24, 30, 31, 32, 40, 41];
-pub const SEND_ERR_CODES: [u64; 17] = [10, 11, 12, 13, 14, 15, 20, 21, 22, 23, 24, 30, 31, 32, 40, 41, 99];
-fn perr_code(e: &ProtocolError) -> u64 { match e { ProtocolError::InterfaceError(i) => 100 + ierr_code(i), ProtocolError::NoSuchHandler => 1, ProtocolError::PacketTimeout => 2 } }
+pub const ERR_CODES: [u64; 20] = [10, 11, 12, 13, 14, 15, 20, 21, 22, 23, 24, 30, 31, 32, 34, 35, 36, 37, 40, 41];
+pub const SEND_ERR_CODES: [u64; 21] = [10, 11, 12, 13, 14, 15, 20, 21, 22, 23, 24, 30, 31, 32, 34, 35, 36, 37, 40, 41, 99];
+// link errors as the protocol layer sees them: the serial port's io errors keep their kind (a layer above must not treat one kind specially)
+fn ierr_code_pro(i: &InterfaceError) -> u64 {
+    use std::io::ErrorKind::*;
+    match i {
+        InterfaceError::SerialError(SerialError::ReadError(e)) => match e.kind() { Interrupted => 34, TimedOut => 35, _ => 31 },
+        InterfaceError::SerialError(SerialError::WriteError(e)) => match e.kind() { TimedOut => 36, WouldBlock => 37, _ => 32 },
+        _ => ierr_code(i),
+    }
+}
+fn perr_code(e: &ProtocolError) -> u64 { match e { ProtocolError::InterfaceError(i) => 100 + ierr_code_pro(i), ProtocolError::NoSuchHandler => 1, ProtocolError::PacketTimeout => 2 } }
 
 pub enum Gres { Pkt(Packet), None, Err(u64) }
 #[derive(Default)]
@@ -110,6 +123,19 @@ pub fn exec_pro(case: &[u64]) -> L {
     let log: Log = Rc::new(RefCell::new(vec![]));
     let mut ids = std::collections::HashMap::new();
     let mut out: Vec<L> = vec![];
+    // marked case (own address 0xbeef): the protocol object has a long life behind it - 70000 packets received (no handler registered yet),
+    // 70000 sent, 70000 link errors seen - which must not matter to anything that follows
+    if own == 0xbeef {
+        for i in 0..70000u32 {
+            { let mut s = st.borrow_mut(); s.gets.clear(); s.answers.clear(); s.sent.clear(); s.trace.clear();
+              s.gets.push_back(Gres::Pkt(Packet { is_error: i % 2 == 0, device_address: if i % 3 == 0 { own } else { (i % 65536) as u16 }, data: vec![i as u8, 1] })); }
+            let _ = catch_unwind(AssertUnwindSafe(|| proto.tick()));
+            let _ = catch_unwind(AssertUnwindSafe(|| proto.send_packet(&Packet { is_error: false, device_address: 7, data: vec![i as u8] })));
+            { let mut s = st.borrow_mut(); s.gets.clear(); s.gets.push_back(Gres::Err(40)); }
+            let _ = catch_unwind(AssertUnwindSafe(|| proto.tick()));
+        }
+        let mut s = st.borrow_mut(); s.gets.clear(); s.answers.clear(); s.sent.clear(); s.trace.clear();
+    }
     for op in ops {
         let mut o = vec![];
         match op[0] {
@@ -162,6 +188,14 @@ pub fn gen_pro(r: &mut Rng, thorough: bool, cx: &mut Ctx) {
         for a in [own, other_addr(r, own)] { let mut b: L = vec![2, 1]; let mut g: L = vec![0]; let p = small_packet(r, a); show_packet(&p, &mut g); push_list(&mut b, &g); ops.push(b); }
         for i in 0..8 { ops.push(vec![0, 5000 + i, 0, 0]); }
         { let mut b: L = vec![3]; let p = small_packet(r, own); show_packet(&p, &mut b); ops.push(b); }
+        let mut l = vec![own as u64, ops.len() as u64]; for o in ops.iter() { push_list(&mut l, o); }
+        cx.emit(&l);
+    }
+    // the marked veteran case (see exec_pro): a short ordinary history on an object that has already handled 70000 packets each way
+    {
+        let own = 0xbeefu16; let mut ops: Vec<L> = vec![vec![0, 1, 0, 0], vec![0, 2, 1, 0]];
+        for a in [own, 0xffff, 9u16] { let mut b: L = vec![2, 1]; let mut g: L = vec![0]; let p = small_packet(r, a); show_packet(&p, &mut g); push_list(&mut b, &g); ops.push(b);
+                                       let mut b: L = vec![3]; let p = small_packet(r, a); show_packet(&p, &mut b); ops.push(b); }
         let mut l = vec![own as u64, ops.len() as u64]; for o in ops.iter() { push_list(&mut l, o); }
         cx.emit(&l);
     }
